@@ -96,6 +96,9 @@ func (p engineProp) Observe(raw json.RawMessage) (Observed, error) {
 }
 
 func observeEngine(in engIn) (Observed, error) {
+	if !spellsOK(in.Q) {
+		return Observed{}, fmt.Errorf("a re-spelt literal does not denote its number")
+	}
 	sql := in.Q.SQL()
 	var opts []genql.QueryOption
 	if in.Wrapped {
@@ -406,6 +409,12 @@ func genPred(r *Rand, t table, depth int, tags *[]string) *Expr {
 		if neg {
 			tag("notin-subquery")
 		}
+		if r.Chance(20) {
+			// the set is a UNION of two single-column selects whose columns have different names
+			sub = &Stmt{Union: true, All: r.Bool(), L: sub, R: &Stmt{From: &From{K: "table", Path: []string{"<-", "t"}}, Items: []Item{{E: Col(Pick(r, []string{"n2", "id"}))}}, Where: Cmp("<", Col("id"), Num(3))}}
+			tag("in-subquery-union")
+			return &Expr{K: "insub", Neg: neg, A: Col(Pick(r, t.numCols)), Q: sub}
+		}
 		if r.Chance(35) {
 			// correlated: the inner WHERE mentions a column of the outer row, so the set differs from row to row
 			sub.Where = Cmp(Pick(r, cmpOps), Col("v"), Col("<-", Pick(r, []string{"n1", "n2", "id"})))
@@ -464,7 +473,17 @@ func genC01(r *Rand, tier string) []Case {
 			tags = append(tags, "op:in-long-list-int-column")
 		}
 		tags = append(tags, fmt.Sprintf("depth:%d", depth), fmt.Sprintf("tablerows:%d", len(t.rows)))
-		c := mkCase(doc, selectStar("t", p), tags, len(t.rows) >= 2)
+		qs := selectStar("t", p)
+		if r.Chance(5) {
+			// a window next to a whole-table aggregate: the aggregate is over every row that satisfies the predicate
+			qs.Items = []Item{{E: Col("id")}, {E: Bin("+", &Expr{K: "agg", Name: "count", Star: true}, Num(0)), Alias: "c"}}
+			qs.Limit = intp(1 + r.Intn(2))
+			tags = append(tags, "window-beside-aggregate")
+		}
+		if r.Chance(12) && respell(r, qs) {
+			tags = append(tags, "literals:respelt")
+		}
+		c := mkCase(doc, qs, tags, len(t.rows) >= 2)
 		if intKind != "" {
 			in := c.Input.(engIn)
 			in.IntKind = intKind
